@@ -35,9 +35,10 @@ DEADLINE = {"quick": 70, "thorough": 1200}
 
 REJECT_OK = (E.TLSBadRecordMAC, E.TLSDecryptionFailed, E.TLSRecordOverflow,
              E.TLSIllegalParameterException, E.TLSUnexpectedMessage)
+# record integrity / decoding alerts (decrypt_error is a *handshake*
+# cryptography alert and is not one of them)
 ALERT_OK = (AD.bad_record_mac, AD.decryption_failed, AD.record_overflow,
-            AD.decode_error, AD.illegal_parameter, AD.unexpected_message,
-            AD.decrypt_error)
+            AD.decode_error, AD.illegal_parameter, AD.unexpected_message)
 
 
 def snap(st):
@@ -102,7 +103,7 @@ def make_cases(ctx):
                 yield "hs-%04x-%d%d-%s-%s" % (sid, ver[0], ver[1], direction,
                                               how), dict(
                     mode="hs", sid=sid, ver=ver, dir=direction, how=how)
-    for where in ("first", "second"):
+    for where in ("first", "second", "budget"):
         for skey in (None, "rsa"):
             yield "early-%s-%s" % (where, skey), dict(mode="early",
                                                       where=where, skey=skey)
@@ -702,8 +703,21 @@ def run_early(ctx, cid, P):
     fl = Flavor("psk", skey=P["skey"], cset=cs, sset=ss)
     st = {"armed": False, "done": False, "n": 0}
     where = P["where"]
+    if where == "budget":
+        # what may be skipped before the client's first protected record is
+        # bounded by max_early_data *in total*
+        ss.max_early_data = 1024
 
     def mitm(rec, idx):
+        if where == "budget":
+            if rec.dir == "c2s" and rec.type == 23 and not st["done"]:
+                st["done"] = True
+                junk = b""
+                for j in range(9):      # 9 x 400 bytes, each below the limit
+                    junk += bytes(rec.raw[:3]) + (400).to_bytes(2, "big") + \
+                        mon.keystream("%s/%d" % (cid, j), 400)
+                return junk + rec.raw
+            return None
         if not st["armed"] or rec.dir != "c2s" or rec.type != 23:
             return None
         st["n"] += 1
@@ -730,6 +744,26 @@ def run_early(ctx, cid, P):
     finally:
         ClientHello.create = orig
     ctx.ev()
+    if where == "budget":
+        ctx.count("conn_trials")
+        key = {"layer": "handshake", "mut": "early_data_budget_exceeded",
+               "fam": "tls13", "ckind": "gcm"}
+        W = {"case": cid, "outcome": [outcome(tc), outcome(ts)]}
+        if not st["done"]:
+            ctx.count("conn_not_armed")
+        elif ts.status == "done":
+            ctx.violation(dict(key, clause="tamper_not_detected",
+                               status="handshake_completed"), W,
+                          "3600 undecryptable bytes were skipped although "
+                          "max_early_data is 1024")
+        elif not (ts.status == "exc" and isinstance(ts.exc, E.TLSLocalAlert)
+                  and ts.exc.description in ALERT_OK):
+            ctx.violation(dict(key, clause="conn_wrong_exception",
+                               exc=str(outcome(ts))), W, repr(ts.exc))
+        else:
+            ctx.count("conn_rejected")
+        ctx.cell("cell", "hs|tls13|early_budget|%s" % (outcome(ts),))
+        return
     if tc.status != "done" or ts.status != "done":
         ctx.inconc("early_data-offering PSK handshake failed in %s: %r %r" % (
             cid, tc.exc, ts.exc))
